@@ -29,6 +29,7 @@ func init() {
 		Stub:           []string{"UDP socket read loop (modelled: datagrams shorter than 80 bytes are discarded, longer ones cut to 80)"},
 		Assumptions:    []string{"the kernel-facing UDP loop hands exactly the leading 80 bytes of datagrams of at least 80 bytes to the report handler"},
 		RequiredProbes: []string{"c01.accepted", "c01.kind.bitflip", "c01.kind.resign-other", "c01.kind.slot-edge", "c01.kind.short", "c01.kind.long", "c01.kind.sentinel", "c01.stalled", "c01.rotated", "c01.edge.window-end", "c01.edge.accept+433", "c01.edge.accept-433"},
+		RequiredSites:  []string{"migrate.wake", "report.before-write", "report.after-write", "migrate.before-shift", "listen.udp"},
 	})
 }
 
